@@ -156,3 +156,53 @@ func ZZ_C16_oprf_verifiable_mode_rejects_altered_evaluation() {
 	_, err = cl.Finalize(fin, eval)
 	zzAssert(err != nil, "finalisation refuses an evaluation whose element was altered")
 }
+
+// verifiable and partially-oblivious mode: an evaluation whose proof has been removed (nil) or
+// replaced by an empty proof object is refused with an error - it neither yields outputs nor panics
+//
+//zz: prop=C16 also=C10 tier=quick backend=bv use=hashuf timeout=600
+func ZZ_C16_oprf_missing_proof_is_refused() {
+	if !zzSymbolic() {
+		zzModelOnly()
+	}
+	mode := VerifiableMode
+	if zzPick("mode", 0, 1) == 1 {
+		mode = PartialObliviousMode
+	}
+	p := zzOPRFParams(mode)
+	k := zzSclVar("k")
+	zzAssumeNote(zzNot(k.IsZero()), "the server key is non-zero")
+	sk := &PrivateKey{p: p, k: k}
+	inputs := zzInputs(1)
+	b := zzSclVar("r")
+	zzAssumeNote(zzNot(b.IsZero()), "blinds are non-zero scalars")
+	info := []byte{7}
+	var err error
+	if mode == VerifiableMode {
+		srv := VerifiableServer{server{p, sk}}
+		cl := VerifiableClient{client{p}, sk.Public()}
+		fin, req, e0 := cl.DeterministicBlind(inputs, []Blind{b})
+		if e0 != nil {
+			return
+		}
+		eval, e1 := srv.Evaluate(req)
+		zzAssert(e1 == nil, "evaluation with proof succeeds")
+		eval.Proof = nil
+		_, err = cl.Finalize(fin, eval)
+	} else {
+		srv := PartialObliviousServer{server{p, sk}}
+		cl := PartialObliviousClient{client{p}, sk.Public()}
+		fin, req, e0 := cl.DeterministicBlind(inputs, []Blind{b})
+		if e0 != nil {
+			return
+		}
+		eval, e1 := srv.Evaluate(req, info)
+		if e1 != nil {
+			return
+		}
+		eval.Proof = nil
+		_, err = cl.Finalize(fin, eval, info)
+	}
+	zzReach("finalised")
+	zzAssert(err != nil, "finalisation refuses an evaluation without a proof")
+}
